@@ -5,3 +5,4 @@ import KoalaVerif.Model.Tables
 import KoalaVerif.Model.Cnf
 import KoalaVerif.Model.Tree
 import KoalaVerif.Model.Solver
+import KoalaVerif.Model.Surgery
